@@ -24,6 +24,8 @@ var c04FilesAll = Files{"x.d2": "p: {q}\np -> r\n", "y.d2": "...@x\nz: 1\n", "d/
 var c04Stmts = []string{
 	// ordinary content
 	"x", "y", "x: lbl", "x -> y", "x.style.fill: red", "x: null", "(x -> y)[0]: e", "x: {y; z}", "x; y",
+	// every form of a connection key: group without index + attribute key, with index, with a container prefix, chains
+	"(x -> y).style.stroke: red", "(x <- y).label: hi", "(x -> y -> z).style.opacity: 0.4", "(x -> y)[0].style.stroke: blue", "w.(x -> y).style.stroke: red", "w.(x -> y)[0]: e", "(x -- y).source-arrowhead: 1",
 	// reserved keywords in other letter cases, as keys and as unquoted values
 	"x: Label", "x: Shape", "x.SHAPE: circle", "x.shape: Circle", "x.style.Opacity: 0.4", "x.STYLE.fill: red", "direction: RIGHT", "x: TRUE", "x: NULL", "x.Label: y",
 	"x.near: Top-Left", "\"label\": q", "x.\"shape\": circle", "x.class: K", "Classes: {k: {style.fill: red}}", "classes: {K: {style.stroke: blue}}", "x.class: k",
@@ -436,7 +438,7 @@ func c09Oracle(in string) eng.Res {
 func init() {
 	eng.Register(&eng.Check{
 		ID: "C04", Level: "exploration", Pre: WriteCorpusCache,
-		Rule: "every sequence of ≤3 (quick) / ≤4 (thorough) statements over a 62-statement fragment built from the three mechanisms named in the property's anchors (reserved keywords in lower/UPPER/Mixed case as keys and as unquoted values; board blocks before/between/after declarations they read or delete; globs, vars, one import) plus formatting-sensitive values, every statement nested 2..12 maps deep, and the corpus; uncompilable programs are skipped (trivial); oracle: canonical projection (all boards, objects, attributes, connections, config) of Compile(x) equals that of Compile(Format(x))",
+		Rule: "every sequence of ≤3 (quick) / ≤4 (thorough) statements over a 69-statement fragment built from the three mechanisms named in the property's anchors (reserved keywords in lower/UPPER/Mixed case as keys and as unquoted values; board blocks before/between/after declarations they read or delete; globs, vars, one import) plus formatting-sensitive values, every statement nested 2..12 maps deep, and the corpus; uncompilable programs are skipped (trivial); oracle: canonical projection (all boards, objects, attributes, connections, config) of Compile(x) equals that of Compile(Format(x))",
 		Oracles: map[string]eng.Oracle{"fmt-meaning": c04Oracle},
 		Run: func(w *eng.W) {
 			lvl := func(k int) {
